@@ -177,12 +177,16 @@ func (s *Storer) DelRunId(id string) error {
 func (s *Storer) resetDataSet() {
 	s.logger.Debugf("Storer reset dataset : %s", s.dir)
 
-	s.dataSetMux.Lock()
-	defer s.dataSetMux.Unlock()
-	ra := s.dataSet
-	if ra != nil {
+	// close the replaced data set before dataSetMux is taken : closing a log reader waits for its
+	// read loop, which looks at the data set (lastSeg -> getDataSet) with the reader's own mutex
+	// held; with dataSetMux write-locked here the two would wait for each other for ever.
+	// The callers hold s.mux, which keeps GetReader / the writers off the data set meanwhile
+	if ra := s.getDataSet(); ra != nil {
 		ra.Close()
 	}
+
+	s.dataSetMux.Lock()
+	defer s.dataSetMux.Unlock()
 
 	filepath.Walk(s.dir, func(path string, info os.FileInfo, err error) error {
 		if err != nil {
